@@ -90,6 +90,8 @@ pub trait Prop {
     fn run(case: &Self::Case, ctx: &Ctx) -> Outcome;
     /// how many times a replay re-runs the case (non-deterministic subjects)
     fn replay_repeats() -> usize { 1 }
+    /// coverage-guided stage only: is a byte-decoded case inside the size range the generators produce?  (others are skipped)
+    fn fuzz_in_domain(_case: &Self::Case) -> bool { true }
     /// if the failure is an instance of a known finding, its key
     fn finding_key(_case: &Self::Case, _msg: &str) -> Option<String> { None }
     fn max_shrink_iters(_tier: Tier) -> u32 { 2000 }
@@ -300,8 +302,11 @@ pub fn check<P: Prop>(tier: Tier, seed: u64) -> Report {
     let mut regression_replays = 0u64;
 
     // 1. witnesses of known findings (open: must still fail with its key -> KNOWN-FINDING line; fixed: must pass)
+    // YV_SKIP_REGRESSION=1 (used only when measuring which seeded changes the *generated* search finds) skips the saved inputs of repaired defects
+    let skip_reg = std::env::var("YV_SKIP_REGRESSION").is_ok();
     for f in &findings {
         let Some(w) = &f.witness else { continue };
+        if skip_reg && f.status != "open" { continue }
         let path = verif_root().join(w);
         let case = match read_replay::<P>(&path) {
             Ok(c) => c,
@@ -331,7 +336,7 @@ pub fn check<P: Prop>(tier: Tier, seed: u64) -> Report {
 
     // 2. committed regression corpus replays/<ID>/*.json
     let reg_dir = verif_root().join("replays").join(P::ID);
-    if let Ok(rd) = std::fs::read_dir(&reg_dir) {
+    if let (Ok(rd), false) = (std::fs::read_dir(&reg_dir), skip_reg) {
         let mut files: Vec<PathBuf> = rd.filter_map(|e| e.ok()).map(|e| e.path())
             .filter(|p| p.extension().map(|x| x == "json").unwrap_or(false)).collect();
         files.sort();
